@@ -357,6 +357,11 @@ class Frame:
             if init:
                 self.run_or_expr(init, tinit)
             elem = self.is_piece_list_loop(n)
+            bitvar = self.bit_loop_var(n)
+            if bitvar is not None:
+                # for (Bitboard b = X; b; b &= b - 1) ... lsb(b): the elements of a set one by one, like while (b) pop_lsb(&b)
+                elem = True
+                self.bitvars = getattr(self, 'bitvars', set()) | {bitvar}
             for _ in range(2):
                 if cond:
                     ct = self.ty(cond, tcond)
@@ -365,7 +370,7 @@ class Frame:
                     self.elem_loops.append((n, set()))
                 before = dict(self.env)
                 self.run_or_expr(body, tbody)
-                if inc:
+                if inc and bitvar is None:
                     self.ty(inc, tinc)
                 if elem:
                     self.elem_loops.pop()
@@ -460,6 +465,27 @@ class Frame:
                 self.env[key] = self.join(a, b, n, 'if')
             elif key in after_then:
                 self.env[key] = a
+
+    def bit_loop_var(self, loop):
+        ch = loop['ch']
+        init, cond, inc = ch[0], ch[2], ch[3]
+        if not init or init['k'] != 'DeclStmt' or cond is None or inc is None:
+            return None
+        v = [x for x in walk(init) if x['k'] == 'VarDecl']
+        if len(v) != 1 or cat(v[0].get('t')) != 'Bitboard':
+            return None
+        vid = v[0]['id']
+        c = strip_casts(cond)
+        if (c.get('ref') or {}).get('id') != vid:
+            return None
+        i = strip_casts(inc)
+        if i['k'] != 'CompoundAssignOperator' or i.get('op') != '&=' or (strip_casts(kids(i)[0]).get('ref') or {}).get('id') != vid:
+            return None
+        r = strip_casts(kids(i)[1])
+        if r['k'] != 'BinaryOperator' or r.get('op') != '-' or (strip_casts(kids(r)[0]).get('ref') or {}).get('id') != vid or \
+                const_of(strip_casts(kids(r)[1])) != 1:
+            return None
+        return vid
 
     def is_piece_list_loop(self, loop):
         ch = loop['ch']
@@ -1269,6 +1295,9 @@ class Frame:
             return T(t.m, None, {'1f'} if t.m in ('I', 'M') else t.attrs)
         if name in ('engine::lsb', 'engine::msb'):
             t = A(0)
+            a0 = strip_casts(args[0])
+            if name == 'engine::lsb' and (a0.get('ref') or {}).get('id') in getattr(self, 'bitvars', set()) and self.elem_loops:
+                return T(t.m if t.m in ('I', 'M') else 'U')         # the current element of a set walked bit by bit
             if t.m == 'I':
                 return I
             if t.m == 'M':
